@@ -1,4 +1,4 @@
-import Swim.Props.C01
+import Swim.Props.C02
 import Swim.Gen.Facts
 /-!
 # C07  Membership events are a serialized, faithful log of Members()
@@ -210,6 +210,563 @@ theorem C07_alive_sync (n : Node) (a : AliveMsg) (nt b : Bool) (env : Env) (hsel
         have := hno (.join a.node a.addr a.port a.md) (by simp [aliveApply, hst, stub, St.deadOrLeft])
         cases this
 
+
+/-! ### history level: replaying the event log yields Members() at every moment -/
+
+/-- a subscriber's view: which names it believes to be members -/
+def viewStep (v : String → Bool) (o : Out) : String → Bool :=
+  match o with
+  | .join nm _ _ _ => fun y => y == nm || v y
+  | .leave nm => fun y => y != nm && v y
+  | _ => v
+
+def replay (v : String → Bool) (outs : List Out) : String → Bool := outs.foldl viewStep v
+
+theorem replay_append (v : String → Bool) (a b : List Out) : replay v (a ++ b) = replay (replay v a) b := by
+  simp [replay, List.foldl_append]
+
+theorem replay_nonevents (v : String → Bool) (outs : List Out) (h : ∀ o ∈ outs, isEvent o = false) :
+    replay v outs = v := by
+  induction outs generalizing v with
+  | nil => rfl
+  | cons o os ih =>
+    simp only [replay, List.foldl_cons]
+    have ho := h o (by simp)
+    have : viewStep v o = v := by cases o <;> simp_all [viewStep, isEvent]
+    rw [this]
+    exact ih v (fun x hx => h x (by simp [hx]))
+
+/-- names are unique in the record list (the node map is keyed by name) -/
+def Uniq (n : Node) : Prop := (n.recs.map (·.name)).Nodup
+
+theorem setRec_names (recs : List Rec) (r : Rec) (h : (lookup recs r.name).isSome) :
+    (setRec recs r).map (·.name) = recs.map (·.name) := by
+  simp only [setRec, List.map_map]
+  apply List.map_congr_left
+  intro x _
+  simp only [Function.comp]
+  by_cases e : (x.name == r.name) = true
+  · simp only [e, ↓reduceIte]; exact (by simpa using e : x.name = r.name).symm
+  · simp [e]
+
+theorem lookup_none_not_mem (recs : List Rec) (y : String) (h : lookup recs y = none) : y ∉ recs.map (·.name) := by
+  intro hm
+  obtain ⟨r, hr, rfl⟩ := List.mem_map.mp hm
+  have := List.find?_eq_none.mp h r hr
+  simp at this
+
+theorem refute_uniq (n : Node) (me : Rec) (acc : Nat) (hu : Uniq n) (hme : (lookup n.recs me.name).isSome) :
+    Uniq (refute n me acc).1 := by
+  simp only [Uniq, refute]
+  rw [setRec_names _ _ (by simpa using hme)]
+  exact hu
+
+theorem withStub_uniq (n : Node) (a : AliveMsg) (hu : Uniq n) (hl : lookup n.recs a.node = none) : Uniq (withStub n a) := by
+  simp only [Uniq, withStub, List.map_append, List.map_cons, List.map_nil]
+  rw [List.nodup_append]
+  refine ⟨hu, by simp, ?_⟩
+  intro x hx y hy
+  simp at hy; subst hy
+  intro e; subst e
+  exact lookup_none_not_mem n.recs a.node hl hx
+
+theorem alive_uniq (n : Node) (a : AliveMsg) (nt b : Bool) (env : Env) (hu : Uniq n) : Uniq (aliveNode n a nt b env).1 := by
+  unfold aliveNode
+  cases hlk : lookup n.recs a.node with
+  | some r =>
+    have hk := aliveDecide_known n a b env r hlk
+    cases hd : aliveDecide n a b env with
+    | ignore => exact hu
+    | conflict => exact hu
+    | stubOnly => rw [hd] at hk; cases hk
+    | delTimerOnly isNew => rw [hd] at hk; simp only [AliveDec.isNew] at hk; subst hk; exact hu
+    | refuteSelf isNew =>
+      rw [hd] at hk; simp only [AliveDec.isNew] at hk; subst hk
+      simp only [aliveApply, Bool.false_eq_true, ↓reduceIte, hlk, Option.getD_some]
+      exact refute_uniq { n with timers := delTimer n.timers a.node } r a.inc hu (by simp [lookup_name hlk, hlk])
+    | accept isNew =>
+      rw [hd] at hk; simp only [AliveDec.isNew] at hk; subst hk
+      simp only [aliveApply, Bool.false_eq_true, ↓reduceIte, hlk, Option.getD_some, Uniq]
+      rw [setRec_names _ _ (by simp [acceptRec, lookup_name hlk, hlk])]
+      exact hu
+  | none =>
+    have hs := withStub_uniq n a hu hlk
+    have hst : lookup (withStub n a).recs a.node = some (stub a) := by
+      simp only [withStub]; exact lookup_append_stub_self _ (stub a) hlk
+    cases hd : aliveDecide n a b env with
+    | ignore => exact hu
+    | conflict => exact hu
+    | stubOnly => exact hs
+    | delTimerOnly isNew =>
+      cases isNew
+      · exact hu
+      · exact hs
+    | refuteSelf isNew =>
+      cases isNew
+      · simp only [aliveApply, Bool.false_eq_true, ↓reduceIte, hlk, Option.getD_none, Uniq, refute]
+        -- the record is unknown: setRec over a list that does not contain the name changes nothing
+        have : setRec n.recs { stub a with inc := refuteInc n.selfInc a.inc } = n.recs := by
+          simp only [setRec]
+          conv => rhs; rw [← List.map_id n.recs]
+          apply List.map_congr_left
+          intro x hx
+          have : x.name ≠ a.node := fun e => lookup_none_not_mem n.recs a.node hlk (List.mem_map.mpr ⟨x, hx, e⟩)
+          simp [stub, this]
+        rw [this]; exact hu
+      · simp only [aliveApply, ↓reduceIte, hst, Option.getD_some]
+        exact refute_uniq { withStub n a with timers := delTimer (withStub n a).timers a.node } (stub a) a.inc hs (by simpa [stub] using (by rw [hst]; rfl))
+    | accept isNew =>
+      cases isNew
+      · simp only [aliveApply, Bool.false_eq_true, ↓reduceIte, hlk, Option.getD_none, Uniq]
+        have : setRec n.recs (acceptRec (stub a) a env) = n.recs := by
+          simp only [setRec]
+          conv => rhs; rw [← List.map_id n.recs]
+          apply List.map_congr_left
+          intro x hx
+          have : x.name ≠ a.node := fun e => lookup_none_not_mem n.recs a.node hlk (List.mem_map.mpr ⟨x, hx, e⟩)
+          simp [acceptRec, stub, this]
+        rw [this]; exact hu
+      · simp only [aliveApply, ↓reduceIte, hst, Option.getD_some, Uniq]
+        rw [setRec_names _ _ (by simp [acceptRec, stub, hst])]
+        exact hs
+
+theorem suspect_uniq (n : Node) (s : Claim) (env : Env) (hu : Uniq n) : Uniq (suspectNode n s env).1 := by
+  unfold suspectNode
+  cases hl : lookup n.recs s.node with
+  | none => exact hu
+  | some state =>
+    have hn := lookup_name hl
+    have hsome : (lookup n.recs state.name).isSome := by rw [hn, hl]; rfl
+    simp only
+    split
+    · exact hu
+    · cases n.timers.find? (·.node == s.node) with
+      | some t => simp only; split <;> exact hu
+      | none =>
+        simp only
+        split
+        · exact hu
+        · split
+          · exact refute_uniq n state s.inc hu hsome
+          · simp only [Uniq]
+            rw [setRec_names n.recs { state with inc := s.inc, st := St.suspect, changed := some env.now } hsome]; exact hu
+
+theorem dead_uniq (n : Node) (d : Claim) (env : Env) (hu : Uniq n) : Uniq (deadNode n d env).1 := by
+  unfold deadNode
+  cases hl : lookup n.recs d.node with
+  | none => exact hu
+  | some state =>
+    have hn := lookup_name hl
+    have hsome : (lookup n.recs state.name).isSome := by rw [hn, hl]; rfl
+    simp only
+    split
+    · exact hu
+    · split
+      · exact hu
+      · split
+        · exact refute_uniq { n with timers := delTimer n.timers d.node } state d.inc hu hsome
+        · simp only [Uniq]
+          rw [setRec_names n.recs { state with inc := d.inc, st := (if (d.node == d.frm) = true then St.left else St.dead), changed := some env.now } hsome]; exact hu
+
+theorem mergeOne_uniq (n : Node) (r : PushState) (now : Nat) (hu : Uniq n) : Uniq (mergeOne n r now).1 := by
+  unfold mergeOne
+  cases r.st
+  · exact alive_uniq n _ false false _ hu
+  · exact suspect_uniq n _ _ hu
+  · exact suspect_uniq n _ _ hu
+  · exact dead_uniq n _ _ hu
+
+/-- the combined invariant the event log relies on -/
+def LogInv (n : Node) : Prop := Uniq n ∧ SelfOk n
+
+/-- sync of one step: replaying its events on "who is listed before" gives "who is listed after" -/
+def Sync (n : Node) (r : Node × List Out) : Prop := ∀ y, replay (listedAt n) r.2 y = listedAt r.1 y
+
+theorem sync_of_nonevents (n : Node) (r : Node × List Out) (h1 : ∀ o ∈ r.2, isEvent o = false)
+    (h2 : ∀ y, listedAt r.1 y = listedAt n y) : Sync n r := by
+  intro y; rw [replay_nonevents _ _ h1, h2]
+
+theorem suspect_sync (n : Node) (s : Claim) (env : Env) : Sync n (suspectNode n s env) :=
+  sync_of_nonevents n _ (C07_suspect_sync n s env).1 (C07_suspect_sync n s env).2
+
+/-- replaying a list whose only possible event is `leave x` -/
+theorem replay_only_leave (v : String → Bool) (outs : List Out) (x : String)
+    (h : ∀ o ∈ outs, isEvent o = true → o = .leave x) (y : String) :
+    replay v outs y = (if y = x ∧ outs.contains (.leave x) then false else v y) := by
+  induction outs generalizing v with
+  | nil => simp [replay]
+  | cons o os ih =>
+    simp only [replay, List.foldl_cons]
+    have ih' := ih (viewStep v o) (fun q hq he => h q (by simp [hq]) he)
+    simp only [replay] at ih'
+    rw [ih']
+    by_cases ho : isEvent o = true
+    · have := h o (by simp) ho
+      subst this
+      by_cases hy : y = x
+      · subst hy
+        by_cases hc : os.contains (Out.leave y) = true <;> simp [viewStep, hc]
+      · simp [viewStep, hy]
+    · have ho' : isEvent o = false := by simpa using ho
+      have hv : viewStep v o = v := by cases o <;> simp_all [viewStep, isEvent]
+      have hne : o ≠ .leave x := by intro e; subst e; simp [isEvent] at ho'
+      rw [hv]
+      have hne' : ¬ (Out.leave x = o) := fun e => hne e.symm
+      by_cases hc : (Out.leave x ∈ os) <;> simp [hc, hne']
+
+theorem dead_sync (n : Node) (d : Claim) (env : Env) : Sync n (deadNode n d env) := by
+  obtain ⟨h1, h2, h3, h4⟩ := C07_dead_sync n d env
+  intro y
+  rw [replay_only_leave _ _ d.node h1 y]
+  by_cases hy : y = d.node
+  · subst hy
+    rw [h3]
+    cases hc : (deadNode n d env).2.contains (Out.leave d.node) <;> simp [hc]
+  · simp [hy, h2 y hy]
+
+def isJL : Out → Bool
+  | .join .. => true | .leave .. => true | _ => false
+
+theorem replay_noJL (v : String → Bool) (outs : List Out) (h : ∀ o ∈ outs, isJL o = false) : replay v outs = v := by
+  induction outs generalizing v with
+  | nil => rfl
+  | cons o os ih =>
+    simp only [replay, List.foldl_cons]
+    have ho := h o (by simp)
+    have : viewStep v o = v := by cases o <;> simp_all [viewStep, isJL]
+    rw [this]
+    exact ih v (fun x hx => h x (by simp [hx]))
+
+theorem sync_of_noJL (n : Node) (r : Node × List Out) (h1 : ∀ o ∈ r.2, isJL o = false)
+    (h2 : ∀ y, listedAt r.1 y = listedAt n y) : Sync n r := by
+  intro y; rw [replay_noJL _ _ h1, h2]
+
+/-- alive claim about another member -/
+theorem alive_other_sync (n : Node) (a : AliveMsg) (nt b : Bool) (env : Env) (hself : a.node ≠ n.cfg.self) :
+    Sync n (aliveNode n a nt b env) := by
+  obtain ⟨h1, h2, h3⟩ := C07_alive_sync n a nt b env hself
+  -- either some event is a join of a.node (then it was unlisted and is listed now), or no join/leave at all
+  by_cases hj : ∃ o ∈ (aliveNode n a nt b env).2, isJL o = true
+  · obtain ⟨o, ho, hjl⟩ := hj
+    have hev : isEvent o = true := by cases o <;> simp_all [isJL, isEvent]
+    rcases h2 o ho hev with ⟨rfl, hpre, hpost⟩ | ⟨rfl, _, _⟩
+    · intro y
+      by_cases hy : y = a.node
+      · subst hy
+        rw [hpost]
+        -- every event of the step is about a.node and none is a leave: once joined, stays
+        have key : ∀ (outs : List Out) (v : String → Bool),
+            (∀ q ∈ outs, isEvent q = true → (q = .join a.node a.addr a.port a.md ∨ q = .update a.node a.md)) →
+            (v a.node = true ∨ .join a.node a.addr a.port a.md ∈ outs) → replay v outs a.node = true := by
+          intro outs
+          induction outs with
+          | nil =>
+            intro v _ hv
+            rcases hv with hv | hv
+            · exact hv
+            · cases hv
+          | cons q qs ih =>
+            intro v hq hv
+            simp only [replay, List.foldl_cons]
+            apply ih (viewStep v q) (fun z hz he => hq z (by simp [hz]) he)
+            by_cases hqe : isEvent q = true
+            · rcases hq q (by simp) hqe with rfl | rfl
+              · left; simp [viewStep]
+              · rcases hv with hv | hv
+                · left; simpa [viewStep] using hv
+                · simp only [List.mem_cons] at hv
+                  rcases hv with hv | hv
+                  · cases hv
+                  · right; exact hv
+            · have hqe' : isEvent q = false := by simpa using hqe
+              have hvs : viewStep v q = v := by cases q <;> simp_all [viewStep, isEvent]
+              rw [hvs]
+              rcases hv with hv | hv
+              · left; exact hv
+              · simp only [List.mem_cons] at hv
+                rcases hv with hv | hv
+                · subst hv; simp [isEvent] at hqe'
+                · right; exact hv
+        apply key _ _ _ (Or.inr ho)
+        intro q hq he
+        rcases h2 q hq he with ⟨rfl, _, _⟩ | ⟨rfl, _, _⟩
+        · left; rfl
+        · right; rfl
+      · -- other names are not touched by events about a.node
+        have key : ∀ (outs : List Out) (v : String → Bool),
+            (∀ q ∈ outs, isEvent q = true → (q = .join a.node a.addr a.port a.md ∨ q = .update a.node a.md)) →
+            replay v outs y = v y := by
+          intro outs
+          induction outs with
+          | nil => intro v _; rfl
+          | cons q qs ih =>
+            intro v hq
+            simp only [replay, List.foldl_cons]
+            have := ih (viewStep v q) (fun z hz he => hq z (by simp [hz]) he)
+            simp only [replay] at this
+            rw [this]
+            by_cases hqe : isEvent q = true
+            · rcases hq q (by simp) hqe with rfl | rfl <;> simp [viewStep, hy]
+            · have hqe' : isEvent q = false := by simpa using hqe
+              cases q <;> simp_all [viewStep, isEvent]
+        rw [key _ _ (fun q hq he => by
+          rcases h2 q hq he with ⟨rfl, _, _⟩ | ⟨rfl, _, _⟩
+          · left; rfl
+          · right; rfl), h1 y hy]
+    · simp [isJL] at hjl
+  · have hno : ∀ o ∈ (aliveNode n a nt b env).2, isJL o = false := by
+      intro o ho
+      cases hh : isJL o
+      · rfl
+      · exact absurd ⟨o, ho, hh⟩ hj
+    apply sync_of_noJL n _ hno
+    intro y
+    by_cases hy : y = a.node
+    · subst hy
+      by_cases hev : ∃ o ∈ (aliveNode n a nt b env).2, isEvent o = true
+      · obtain ⟨o, ho, he⟩ := hev
+        rcases h2 o ho he with ⟨rfl, _, _⟩ | ⟨_, hpre, hpost⟩
+        · have := hno _ ho; simp [isJL] at this
+        · rw [hpre, hpost]
+      · apply h3
+        intro o ho
+        cases hh : isEvent o
+        · rfl
+        · exact absurd ⟨o, ho, hh⟩ hev
+    · exact h1 y hy
+
+theorem listedAt_congr (n n' : Node) (h : n'.recs = n.recs) (y : String) : listedAt n' y = listedAt n y := by
+  simp [listedAt, h]
+
+/-- alive claim about the local node, on a node that satisfies the self invariant -/
+theorem alive_self_sync (n : Node) (a : AliveMsg) (nt b : Bool) (env : Env) (hs : a.node = n.cfg.self)
+    (hok : SelfOk n) : Sync n (aliveNode n a nt b env) := by
+  obtain ⟨me, hme, hal⟩ := hok
+  have hn := lookup_name hme
+  have hk := aliveDecide_known n a b env me (by rw [hs]; exact hme)
+  -- once Leave has been called, alive claims about ourselves are ignored
+  have hleft : n.hasLeft = true → aliveDecide n a b env = .ignore := by
+    intro hl; unfold aliveDecide; simp [hl, hs]
+  unfold aliveNode
+  cases hd : aliveDecide n a b env with
+  | ignore => exact sync_of_noJL n _ (by simp [aliveApply]) (fun _ => rfl)
+  | conflict =>
+    apply sync_of_noJL n _ _ (fun _ => rfl)
+    intro o ho
+    simp only [aliveApply] at ho
+    split at ho <;> simp at ho
+    subst ho; rfl
+  | stubOnly => rw [hd] at hk; cases hk
+  | delTimerOnly isNew =>
+    rw [hd] at hk; simp only [AliveDec.isNew] at hk; subst hk
+    exact sync_of_noJL n _ (by simp [aliveApply]) (fun y => listedAt_congr _ _ rfl y)
+  | refuteSelf isNew =>
+    rw [hd] at hk; simp only [AliveDec.isNew] at hk; subst hk
+    have hnl : n.hasLeft = false := by
+      cases hl : n.hasLeft
+      · rfl
+      · rw [hleft hl] at hd; cases hd
+    have hst := hal hnl
+    have hdl : me.st.deadOrLeft = false := by rw [hst]; rfl
+    apply sync_of_noJL
+    · intro o ho
+      simp only [aliveApply, Bool.false_eq_true, ↓reduceIte, hs, hme, Option.getD_some, hdl, List.append_nil, refute] at ho
+      simp at ho; subst ho; rfl
+    · intro y
+      simp only [aliveApply, Bool.false_eq_true, ↓reduceIte, hs, hme, Option.getD_some, refute]
+      exact listedAt_setRec_same { n with timers := delTimer n.timers n.cfg.self } me
+        { me with inc := refuteInc n.selfInc a.inc } y (by rw [hn]; exact hme) rfl rfl _ rfl _ rfl
+  | accept isNew =>
+    rw [hd] at hk; simp only [AliveDec.isNew] at hk; subst hk
+    have hnl : n.hasLeft = false := by
+      cases hl : n.hasLeft
+      · rfl
+      · rw [hleft hl] at hd; cases hd
+    have hst := hal hnl
+    have hdl : me.st.deadOrLeft = false := by rw [hst]; rfl
+    apply sync_of_noJL
+    · intro o ho
+      simp only [aliveApply, Bool.false_eq_true, ↓reduceIte, hs, hme, Option.getD_some, hdl] at ho
+      simp only [List.cons_append, List.nil_append, List.mem_cons] at ho
+      rcases ho with rfl | ho
+      · rfl
+      · split at ho <;> simp at ho
+        subst ho; rfl
+    · intro y
+      simp only [aliveApply, Bool.false_eq_true, ↓reduceIte, hs, hme, Option.getD_some]
+      exact listedAt_setRec_same { n with timers := delTimer n.timers n.cfg.self } me (acceptRec me a env) y
+        (by rw [hn]; exact hme) (by simp [acceptRec]) (by simp [acceptRec, hst, St.deadOrLeft]) _ rfl _ rfl
+
+theorem alive_sync (n : Node) (a : AliveMsg) (nt b : Bool) (env : Env) (hok : SelfOk n) :
+    Sync n (aliveNode n a nt b env) := by
+  by_cases hs : a.node = n.cfg.self
+  · exact alive_self_sync n a nt b env hs hok
+  · exact alive_other_sync n a nt b env hs
+
+theorem mergeOne_sync (n : Node) (r : PushState) (now : Nat) (hok : SelfOk n) : Sync n (mergeOne n r now) := by
+  unfold mergeOne
+  cases r.st
+  · exact alive_sync n _ false false _ hok
+  · exact suspect_sync n _ _
+  · exact suspect_sync n _ _
+  · exact dead_sync n _ _
+
+theorem mergeOne_logInv (n : Node) (r : PushState) (now : Nat) (h : LogInv n) : LogInv (mergeOne n r now).1 :=
+  ⟨mergeOne_uniq n r now h.1, C02_mergeOne_selfOk n r now h.2⟩
+
+theorem merge_sync (n : Node) (rs : List PushState) (now : Nat) (h : LogInv n) :
+    Sync n (mergeState n rs now) ∧ LogInv (mergeState n rs now).1 := by
+  unfold mergeState
+  suffices hh : ∀ (acc : Node × List Out), LogInv acc.1 → (∀ y, replay (listedAt n) acc.2 y = listedAt acc.1 y) →
+      (∀ y, replay (listedAt n) (rs.foldl (fun (acc : Node × List Out) r => ((mergeOne acc.1 r now).1, acc.2 ++ (mergeOne acc.1 r now).2)) acc).2 y =
+        listedAt (rs.foldl (fun (acc : Node × List Out) r => ((mergeOne acc.1 r now).1, acc.2 ++ (mergeOne acc.1 r now).2)) acc).1 y) ∧
+      LogInv (rs.foldl (fun (acc : Node × List Out) r => ((mergeOne acc.1 r now).1, acc.2 ++ (mergeOne acc.1 r now).2)) acc).1 by
+    exact hh (n, []) h (fun _ => rfl)
+  induction rs with
+  | nil => intro acc ha hs; exact ⟨hs, ha⟩
+  | cons r rs ih =>
+    intro acc ha hs
+    simp only [List.foldl_cons]
+    apply ih ((mergeOne acc.1 r now).1, acc.2 ++ (mergeOne acc.1 r now).2) (mergeOne_logInv acc.1 r now ha)
+    intro y
+    rw [replay_append]
+    have h1 : replay (listedAt n) acc.2 = listedAt acc.1 := funext hs
+    rw [h1]
+    exact mergeOne_sync acc.1 r now ha.2 y
+
+theorem lookup_filter_drop (recs : List Rec) (p : Rec → Bool) (y : String) (hu : (recs.map (·.name)).Nodup) :
+    lookup (recs.filter p) y = (lookup recs y).bind (fun r => if p r then some r else none) := by
+  induction recs with
+  | nil => rfl
+  | cons x xs ih =>
+    simp only [List.map_cons, List.nodup_cons] at hu
+    have ih' := ih hu.2
+    by_cases hx : (x.name == y) = true
+    · have hxy : x.name = y := by simpa using hx
+      by_cases hp : p x = true
+      · simp [lookup, List.filter_cons, hp, hx]
+      · simp only [lookup, List.filter_cons, hp, Bool.false_eq_true, ↓reduceIte, List.find?_cons, hx, Option.bind_some]
+        -- no other record carries the name
+        have : List.find? (fun r => r.name == y) (List.filter p xs) = none := by
+          apply List.find?_eq_none.mpr
+          intro r hr
+          have hrm := (List.mem_filter.mp hr).1
+          have : r.name ≠ y := by
+            intro e; apply hu.1; rw [hxy, ← e]; exact List.mem_map_of_mem hrm
+          simpa using this
+        exact this
+    · by_cases hp : p x = true
+      · simp only [lookup, List.filter_cons, hp, ↓reduceIte, List.find?_cons, hx] at ih' ⊢
+        exact ih'
+      · simp only [lookup, List.filter_cons, hp, Bool.false_eq_true, ↓reduceIte, List.find?_cons, hx] at ih' ⊢
+        exact ih'
+
+theorem reap_sync (n : Node) (hu : Uniq n) : Sync n (reap n, []) := by
+  apply sync_of_noJL n _ (by simp)
+  intro y
+  simp only [listedAt, reap]
+  rw [lookup_filter_drop n.recs _ y hu]
+  cases hl : lookup n.recs y with
+  | none => rfl
+  | some r =>
+    simp only [Option.bind_some]
+    by_cases hp : (!(r.st.deadOrLeft && r.changed == none) || r.name == n.cfg.self) = true
+    · rw [if_pos hp]
+    · rw [if_neg hp]
+      have : r.st.deadOrLeft = true := by
+        cases hd : r.st.deadOrLeft
+        · simp [hd] at hp
+        · rfl
+      simp [this]
+
+theorem reap_uniq (n : Node) (hu : Uniq n) : Uniq (reap n) := by
+  simp only [Uniq, reap]
+  exact (List.filter_sublist.map _).nodup hu
+
+theorem age_sync (n : Node) (name : String) : Sync n (ageRec n name, []) := by
+  apply sync_of_noJL n _ (by simp)
+  intro y
+  simp only [listedAt, ageRec]
+  rw [lookup_map_namePreserving n.recs _ (by intro r; split <;> rfl) y]
+  cases lookup n.recs y with
+  | none => rfl
+  | some r => simp only [Option.map_some]; split <;> rfl
+
+theorem age_uniq (n : Node) (name : String) (hu : Uniq n) : Uniq (ageRec n name) := by
+  simp only [Uniq, ageRec, List.map_map]
+  have : (n.recs.map ((fun x => x.name) ∘ fun r => if (r.name == name) = true then { r with changed := none } else r)) = n.recs.map (·.name) := by
+    apply List.map_congr_left
+    intro r _
+    simp only [Function.comp]
+    split <;> rfl
+  rw [this]; exact hu
+
+/-- **one step keeps the log in sync.** For every operation of the model, on a node satisfying the
+invariant (unique names, local record alive unless left): replaying the step's events on the set of
+listed members before the step gives exactly the set of listed members after it, and the
+invariant is preserved. -/
+theorem C07_step_sync (n : Node) (op : Op) (h : LogInv n) : Sync n (step n op) ∧ LogInv (step n op).1 := by
+  obtain ⟨hu, hok⟩ := h
+  cases op with
+  | alive a b env => exact ⟨alive_sync n a false b env hok, alive_uniq n a false b env hu, C02_alive_selfOk n a false b env hok⟩
+  | suspect c env => exact ⟨suspect_sync n c env, suspect_uniq n c env hu, C02_suspect_selfOk n c env hok⟩
+  | dead c env => exact ⟨dead_sync n c env, dead_uniq n c env hu, C02_dead_selfOk n c env hok⟩
+  | merge rs now => exact merge_sync n rs now ⟨hu, hok⟩
+  | fire node ca env =>
+    simp only [step, timerFire]
+    cases lookup n.recs node with
+    | none => exact ⟨sync_of_noJL n _ (by simp) (fun _ => rfl), hu, hok⟩
+    | some state =>
+      simp only
+      split
+      · exact ⟨dead_sync n _ env, dead_uniq n _ env hu, C02_dead_selfOk n _ env hok⟩
+      · exact ⟨sync_of_noJL n _ (by simp) (fun _ => rfl), hu, hok⟩
+  | reap => exact ⟨reap_sync n hu, reap_uniq n hu, C02_reap_selfOk n hok⟩
+  | update a p m v env =>
+    simp only [step, updateNode]
+    have hok' : SelfOk { n with selfInc := (n.selfInc + 1) % u32 } := hok
+    exact ⟨fun y => alive_sync _ _ true true env hok' y, alive_uniq _ _ true true env hu, C02_alive_selfOk _ _ true true env hok'⟩
+  | leave env =>
+    simp only [step, leave]
+    split
+    · exact ⟨sync_of_noJL n _ (by simp) (fun _ => rfl), hu, hok⟩
+    · obtain ⟨me, hme, _⟩ := hok
+      simp only [hme]
+      have hok' : SelfOk { n with hasLeft := true } := ⟨me, hme, fun hf => by cases hf⟩
+      exact ⟨fun y => dead_sync { n with hasLeft := true } _ env y, dead_uniq { n with hasLeft := true } _ env hu,
+        C02_dead_selfOk { n with hasLeft := true } _ env hok'⟩
+  | age name => exact ⟨age_sync n name, age_uniq n name hu, C02_age_selfOk n name hok⟩
+
+/-- **C07_history (event_members_sync).** Over every sequence of operations - claims by every path,
+merges, timer expiries, reaping passes, UpdateNode, Leave - replaying the whole event log on the
+initial member set yields exactly the members listed at the end (hence at every intermediate
+moment: apply the theorem to each prefix). In particular no member is reported joined twice
+without a leave, none leaves without having joined, and no change of the listed set happens
+without its event. -/
+theorem C07_history (n : Node) (ops : List Op) (h : LogInv n) :
+    let r := ops.foldl (fun (acc : Node × List Out) op => ((step acc.1 op).1, acc.2 ++ (step acc.1 op).2)) (n, [])
+    (∀ y, replay (listedAt n) r.2 y = listedAt r.1 y) ∧ LogInv r.1 := by
+  suffices hh : ∀ (acc : Node × List Out), LogInv acc.1 → (∀ y, replay (listedAt n) acc.2 y = listedAt acc.1 y) →
+      (∀ y, replay (listedAt n) (ops.foldl (fun (acc : Node × List Out) op => ((step acc.1 op).1, acc.2 ++ (step acc.1 op).2)) acc).2 y =
+        listedAt (ops.foldl (fun (acc : Node × List Out) op => ((step acc.1 op).1, acc.2 ++ (step acc.1 op).2)) acc).1 y) ∧
+      LogInv (ops.foldl (fun (acc : Node × List Out) op => ((step acc.1 op).1, acc.2 ++ (step acc.1 op).2)) acc).1 by
+    exact hh (n, []) h (fun _ => rfl)
+  induction ops with
+  | nil => intro acc ha hs; exact ⟨hs, ha⟩
+  | cons op ops ih =>
+    intro acc ha hs
+    simp only [List.foldl_cons]
+    obtain ⟨hsync, hinv⟩ := C07_step_sync acc.1 op ha
+    apply ih ((step acc.1 op).1, acc.2 ++ (step acc.1 op).2) hinv
+    intro y
+    rw [replay_append]
+    have h1 : replay (listedAt n) acc.2 = listedAt acc.1 := funext hs
+    rw [h1]
+    exact hsync y
+
+end Swim.Merge
+
+namespace Swim.Merge
 
 /-! ### callbacks are serialised: structural facts regenerated from the source -/
 
